@@ -130,3 +130,37 @@ Print Assumptions C09_variant_order.
 Theorem C09_header_written : forall w, firstn 5 (serialize_wire w) = DAT_MAGIC ++ [V0_VERSION_BYTE].
 Proof. exact header_written. Qed.
 Print Assumptions C09_header_written.
+
+(* ------------------------------------------------------------------ the msgpack codec: the DECODER
+   model (Msgpack_Model.decode_mp on fuel, for the formats rmp accepts for these types) is a left
+   inverse of the encoder on well-formed trees; the encoding is injective and prefix-free *)
+From Adb Require Import Base Generated Wire_Model C10_Model Msgpack_Model Msgpack_Proofs.
+
+Theorem C09_msgpack_roundtrip :
+  forall t : mp,
+  mp_wf t = true ->
+  forall (fuel : nat) (rest : list N),
+  (mp_size t <= fuel)%nat -> decode_mp fuel (encode t ++ rest) = Some (t, rest).
+Proof. exact decode_encode_fuel. Qed.
+Print Assumptions C09_msgpack_roundtrip.
+
+Theorem C09_msgpack_decode_all_encode :
+  forall t : mp, mp_wf t = true -> decode_all (encode t) = Some t.
+Proof. exact decode_all_encode. Qed.
+Print Assumptions C09_msgpack_decode_all_encode.
+
+Theorem C09_msgpack_encode_injective :
+  forall t t' : mp, mp_wf t = true -> mp_wf t' = true -> encode t = encode t' -> t = t'.
+Proof. exact encode_injective. Qed.
+Print Assumptions C09_msgpack_encode_injective.
+
+Theorem C09_msgpack_encode_prefix_free :
+  forall t t' : mp, mp_wf t = true -> mp_wf t' = true -> ~ strict_prefix (encode t') (encode t).
+Proof. exact encode_prefix_free. Qed.
+Print Assumptions C09_msgpack_encode_prefix_free.
+
+Theorem C09_msgpack_wf_needed_refuted :
+  exists t : mp, mp_wf t = false /\ decode_all (encode t) <> Some t.
+Proof. exact decode_encode_wf_needed. Qed.
+Print Assumptions C09_msgpack_wf_needed_refuted.
+
